@@ -541,7 +541,7 @@ PROPS = {
     },
     "C09": {
         "lean_modules": ["Dbg.Props.C09"],
-        "theorems": [],
+        "theorems": ["CompressGraph.C09_censored_excluded", "CompressGraph.extendNode_ok", "CompressGraph.buildNode_ok", "CompressGraph.compressLoop_ok"],
         "partial": ["C09_char (result = connected components of the surviving good links), C09_kmers, C09_no_dangling, C09_payload, C09_valid, "
                     "idempotence and direct-route corollaries: executable predicates (partition against the k-mer table reconstructed from the "
                     "surviving nodes, components by label propagation, dangling-extension scan, payload fold) evaluated on the crate's result"],
@@ -571,8 +571,8 @@ PROPS = {
     },
     "C20": {
         "lean_modules": ["Dbg.Props.C20"],
-        "theorems": [],
-        "partial": [],
+        "theorems": ["Export.gfa_link_sound", "Export.gfa_links_complete", "Export.gfa_segment", "Export.mem_allLinks"],
+        "partial": ["'each adjacency exactly once unless it touches a palindromic single-k-mer node' (multiplicity), JSON well-formedness (json_render) and serde round trips: decided by execution (GFA records re-read into port pairs and counted; JSON parsed by serde_json; round trips compared)"],
         "n_quick": 3000, "n_thorough": 200000,
         "nontrivial": lambda toks, impl: impl != "panic" and (toks[1] != "export" or toks[4].count(",") >= 1), "tags": _c20_tags,
         "shrink": _c20_shrink,
@@ -585,8 +585,8 @@ PROPS = {
     },
     "C04": {
         "lean_modules": ["Dbg.Props.C04"],
-        "theorems": [],
-        "partial": [],
+        "theorems": ["Pipeline.C04_link_pieces", "Pipeline.C04_link_shard", "Pipeline.C04_link_recompress"],
+        "partial": ["C04_sharded_eq_direct_full: stated, not proved; links (ii) bucket purity, (iv) characterisation of re-compression and (v) closure of components are missing (see Props/C04.lean); decided by evaluating partition/payload/adjacency equality on the two real pipelines"],
         "n_quick": 1500, "n_thorough": 60000,
         "nontrivial": _c04_nontrivial, "tags": _c04_tags, "shrink": _reads_shrink(8),
         "rule": "requests `sharded K P perm stranded thr prune reads`: both real pipelines on the same read set from the structured generator; (K,P) in "
@@ -599,8 +599,8 @@ PROPS = {
     },
     "C06": {
         "lean_modules": ["Dbg.Props.C06"],
-        "theorems": [],
-        "partial": [],
+        "theorems": ["Compress.C06_key_is_min", "Compress.C06_key_rc_invariant", "Compress.C06_flip_opposite", "Compress.C06_stranded_no_canon", "Compress.C06_unstranded_canon"],
+        "partial": ["filter_rc_invariant, graph_rc_invariant, stranded_separation at table/graph level: executable predicates on the crate's outputs for masked reverse-complemented read sets; theorems not yet written"],
         "n_quick": 1200, "n_thorough": 50000,
         "nontrivial": lambda toks, impl: impl != "panic" and toks[5] != "-" and toks[6].count(",") >= 1, "tags": _c06_tags, "shrink": _reads_shrink(6),
         "rule": "requests `rcsym K stranded thr mask reads`: the crate builds the k-mer table and the direct, sharded and re-compressed graphs for the "
@@ -613,8 +613,8 @@ PROPS = {
     },
     "C19": {
         "lean_modules": ["Dbg.Props.C19"],
-        "theorems": [],
-        "partial": [],
+        "theorems": ["Graph.C19_index_unique", "Graph.C19_queries_determined", "Graph.C19_search_exact", "Graph.searchKmer_exact"],
+        "partial": ["that boomphf's parallel builder meets the exact-lookup contract under every thread schedule is not provable in a model of this crate: explored by execution (1-16 threads, repeated runs, 10^5-node graphs)"],
         "n_quick": 1500, "n_thorough": 60000,
         "nontrivial": lambda toks, impl: impl.startswith("same=1") or ("same=1" in impl and toks[5].count(",") >= 1), "tags": _c19_tags,
         "rule": "requests `finish K stranded threads nodes probes`: pipeline graphs finished once with finish_serial() and five times with finish() "
